@@ -327,8 +327,8 @@ func BulkLoaderInsertsEveryObject(p *core.Program, r *core.Report, rule string) 
 			bad := ""
 			w.Transfer = func(st int, x ast.Node, f facts.Formula) int {
 				if c, ok := x.(*ast.CallExpr); ok {
-					if fn := core.Callee(info, c); fn != nil && p.IsModuleFunc(fn) && len(c.Args) >= 1 {
-						// a call of the engine that receives a field of the parsed object
+					if fn := core.Callee(info, c); fn != nil && p.IsModuleFunc(fn) && len(c.Args) >= 1 && isEngineMethod(fn) {
+						// a method of the engine that receives a field of the parsed object
 						for _, a := range c.Args {
 							if se, ok := ast.Unparen(a).(*ast.SelectorExpr); ok {
 								if t := info.TypeOf(se.X); t != nil && core.TypeIs(t, core.PkgParser, "K8sObject") {
@@ -620,4 +620,264 @@ func MapFieldsAllocated(p *core.Program, r *core.Report, rule string) {
 	}
 	r.RuleCounts[rule] = n
 	r.Floor(rule, 4)
+}
+
+func isEngineMethod(fn *types.Func) bool {
+	recv := fn.Type().(*types.Signature).Recv()
+	return recv != nil && core.TypeIs(recv.Type(), core.PkgEval, "PolicyEngine")
+}
+
+// PortSetTextLossless is C04-key-lossless: the text of a port set - which, through ConnectionSet.String, is part of the
+// grouping key of diff's IP re-merge (`(peer);(conn1);(conn2)`, rule C04-d) and of every report line - renders the numbered
+// ports through the interval library's String() of the whole set. A rendering assembled from Intervals() / NumIntervals()
+// (an abbreviation, a cap on the number of ranges) is not injective: two different sets get the same key, are merged, and
+// all merged addresses get the connections of the group's first member.
+func PortSetTextLossless(p *core.Program, r *core.Report, rule string) {
+	root := p.Func(core.PkgCommon, "PortSet", "String")
+	if root == nil {
+		r.Lost(rule, "(*PortSet).String")
+		return
+	}
+	n, whole := 0, 0
+	bad := ""
+	seen := map[*types.Func]bool{}
+	var visit func(fd *core.FuncDecl, depth int)
+	visit = func(fd *core.FuncDecl, depth int) {
+		if fd == nil || seen[fd.Obj] || depth > 2 || fd.Pkg.PkgPath != core.PkgCommon {
+			return
+		}
+		seen[fd.Obj] = true
+		info := fd.Pkg.TypesInfo
+		ast.Inspect(fd.Decl.Body, func(nd ast.Node) bool {
+			c, ok := nd.(*ast.CallExpr)
+			if !ok {
+				return true
+			}
+			fn := core.Callee(info, c)
+			if fn == nil {
+				return true
+			}
+			if g := p.ByObj[fn]; g != nil {
+				visit(g, depth+1)
+				return true
+			}
+			se, ok := ast.Unparen(c.Fun).(*ast.SelectorExpr)
+			if !ok {
+				return true
+			}
+			if t := info.TypeOf(se.X); t != nil && strings.Contains(t.String(), "models/pkg/interval.CanonicalSet") {
+				n++
+				if fn.Name() == "String" {
+					whole++
+				} else if bad == "" {
+					bad = fmt.Sprintf("%s in %s (%s)", core.ExprStr(c), fd.Key(), p.Pos(c.Pos()))
+				}
+			}
+			return true
+		})
+	}
+	visit(root, 0)
+	r.Check(bad == "" && whole >= 1, rule, root.Key()+": the numbered ports are rendered by the interval library's String() of the whole set", p.Pos(root.Decl.Pos()), "",
+		"the text of a port set is assembled from "+bad+": an abbreviated or capped rendering is not injective, and the text is a grouping key of the diff (two different connection sets merge) and the content of every report line")
+	r.RuleCounts[rule] = n
+	r.Floor(rule, 1)
+}
+
+// PeersListHandedOut is C04-peers: diff decides which workloads are new or lost from the peers list that the connectivity
+// analysis returns beside the connections. Whenever the engine has pods and no focus workload is in play (diff never sets
+// one), every successful return of getConnectionsList hands out the list computed from PolicyEngine.GetPeersList - also
+// when there are no connections to report. An "empty result" shortcut that returns an empty peers list makes every
+// workload of that side look removed (or added).
+func PeersListHandedOut(p *core.Program, r *core.Report, rule string) {
+	fd := p.Func(core.PkgConnlist, "ConnlistAnalyzer", "getConnectionsList")
+	get := p.Func(core.PkgEval, "PolicyEngine", "GetPeersList")
+	if fd == nil || get == nil {
+		r.Lost(rule, "(*ConnlistAnalyzer).getConnectionsList / (*PolicyEngine).GetPeersList")
+		return
+	}
+	info := fd.Pkg.TypesInfo
+	// the locals that hold the peers: the first result of GetPeersList and what is computed from it by one call
+	holds := map[types.Object]bool{}
+	for changed := true; changed; {
+		changed = false
+		ast.Inspect(fd.Decl.Body, func(nd ast.Node) bool {
+			as, ok := nd.(*ast.AssignStmt)
+			if !ok || len(as.Rhs) != 1 {
+				return true
+			}
+			c, isCall := ast.Unparen(as.Rhs[0]).(*ast.CallExpr)
+			if !isCall {
+				return true
+			}
+			from := core.Callee(info, c) == get.Obj
+			for _, a := range c.Args {
+				if id, isID := ast.Unparen(a).(*ast.Ident); isID && holds[info.ObjectOf(id)] {
+					from = true
+				}
+			}
+			if id, isID := as.Lhs[0].(*ast.Ident); isID && from && !holds[info.ObjectOf(id)] && info.ObjectOf(id) != nil {
+				if _, isSlice := info.ObjectOf(id).Type().Underlying().(*types.Slice); isSlice {
+					holds[info.ObjectOf(id)] = true
+					changed = true
+				}
+			}
+			return true
+		})
+	}
+	n := 0
+	bad := ""
+	w := facts.NewWalker(info)
+	w.OnStmt = func(s ast.Stmt, f facts.Formula) {
+		ret, ok := s.(*ast.ReturnStmt)
+		if !ok || w.FuncLitDepth > 0 || !facts.Satisfiable(f) || IsErrorReturn(p, w, fd.Obj, ret, f) {
+			return
+		}
+		n++
+		if len(ret.Results) == 3 {
+			e := ast.Unparen(ret.Results[1])
+			for step := 0; step < 3; step++ {
+				if id, isID := e.(*ast.Ident); isID && holds[info.ObjectOf(id)] {
+					return
+				}
+				next := ast.Unparen(ResolveLocal(info, fd.Decl.Body, e))
+				if next == e {
+					break
+				}
+				e = next
+			}
+		}
+		// excused: no pods at all, or a focus workload is set
+		for _, a := range facts.Atoms(f) {
+			sa := facts.StripVersions(a)
+			if strings.HasPrefix(sa, "b:") && strings.HasSuffix(sa, ".HasPodPeers()") && facts.Entails(f, facts.MkNot(facts.Atom(a))) {
+				return
+			}
+			if strings.HasPrefix(sa, "eq:") && strings.Contains(sa, ".focusWorkload==\"\"") && facts.Entails(f, facts.MkNot(facts.Atom(a))) {
+				return
+			}
+		}
+		// ... or a boolean helper answered in a way it only answers when a focus workload is set
+		for call, atom := range w.CallAtoms {
+			g := p.ByObj[core.Callee(info, call)]
+			if g == nil {
+				continue
+			}
+			for _, want := range []bool{true, false} {
+				fa := facts.Formula(facts.Atom(atom))
+				if !want {
+					fa = facts.MkNot(fa)
+				}
+				if facts.Entails(f, fa) && answersOnlyWithFocus(p, g, want) {
+					return
+				}
+			}
+		}
+		if bad == "" {
+			bad = fmt.Sprintf("the return at %s (path: %s) does not hand out the list computed from GetPeersList", p.Pos(ret.Pos()), facts.StripVersions(facts.String(f)))
+		}
+	}
+	w.WalkBody(fd.Decl.Body, nil)
+	r.Check(bad == "" && len(holds) > 0 && n >= 2, rule, fd.Key()+": every successful return hands out the peers list (unless there are no pods, or a focus workload is set)", p.Pos(fd.Decl.Pos()), "",
+		bad+": diff takes the workloads of each side from this list, so every workload of a side with nothing to report is classified as lost or new")
+}
+
+// NilNamespaceSelectorMatchesByKey is C07-b-nil (found as defect F21). addRepresentativePod gives a rule with a nil
+// namespaceSelector in a policy of namespace N the same key - hence the same, de-duplicated representative peer - as a rule
+// whose namespaceSelector is exactly {kubernetes.io/metadata.name: N}. Whichever rule is seen first creates the peer: from
+// the nil-selector rule it lives in namespace N, from the explicit rule it lives in no namespace and only carries the
+// selector. The matcher must therefore decide the nil-selector case by what the key is made of: where ruleSelectsPeer
+// handles `NamespaceSelector == nil`, the verdict has to consult the representative peer's namespace SELECTOR (directly or
+// in a helper), not the pod's Namespace field alone - otherwise the exposure of the nil-selector rule is unreported
+// whenever the explicit rule came first.
+func NilNamespaceSelectorMatchesByKey(p *core.Program, r *core.Report, rule string) {
+	fd := p.Func(core.PkgK8s, "NetworkPolicy", "ruleSelectsPeer")
+	if fd == nil {
+		r.Lost(rule, "(*NetworkPolicy).ruleSelectsPeer")
+		return
+	}
+	info := fd.Pkg.TypesInfo
+	readsSelector := func(e ast.Node) bool {
+		found := false
+		var visit func(n ast.Node, depth int)
+		visit = func(n ast.Node, depth int) {
+			ast.Inspect(n, func(x ast.Node) bool {
+				switch y := x.(type) {
+				case *ast.SelectorExpr:
+					if f := core.FieldOf(info, y); f != nil && core.RefName(f) == "RepresentativeNsLabelSelector" {
+						found = true
+					}
+				case *ast.CallExpr:
+					if g := p.ByObj[core.Callee(info, y)]; g != nil && depth < 2 && g.Pkg.PkgPath == core.PkgK8s {
+						visit(g.Decl.Body, depth+1)
+					}
+				}
+				return !found
+			})
+		}
+		visit(e, 0)
+		return found
+	}
+	n := 0
+	bad := ""
+	w := facts.NewWalker(info)
+	w.OnStmt = func(s ast.Stmt, f facts.Formula) {
+		as, ok := s.(*ast.AssignStmt)
+		if !ok || len(as.Lhs) != 1 || len(as.Rhs) != 1 {
+			return
+		}
+		// under `<rule peer>.NamespaceSelector == nil`
+		under := false
+		for _, a := range facts.Atoms(f) {
+			if sa := facts.StripVersions(a); strings.HasPrefix(sa, "nil:") && strings.HasSuffix(sa, ".NamespaceSelector") && facts.Entails(f, facts.Atom(a)) {
+				under = true
+			}
+		}
+		if !under {
+			return
+		}
+		if b, isBool := info.TypeOf(as.Lhs[0]).Underlying().(*types.Basic); !isBool || b.Kind() != types.Bool {
+			return
+		}
+		n++
+		if !readsSelector(as.Rhs[0]) && bad == "" {
+			bad = fmt.Sprintf("at %s the verdict is %s", p.Pos(as.Pos()), core.ExprStr(as.Rhs[0]))
+		}
+	}
+	w.WalkBody(fd.Decl.Body, nil)
+	r.Check(bad == "" && n >= 1, rule, fd.Key()+": a rule without namespaceSelector matches a representative peer by the peer's namespace selector, as the de-duplication key does", p.Pos(fd.Decl.Pos()), "",
+		"for a rule with a nil namespaceSelector "+bad+", which never consults the representative peer's namespace selector: the representative peer shared (same key) with a rule that names the namespace by its name label has no Namespace when that rule came first, so the nil-selector rule does not select it and its exposure is not reported")
+}
+
+// answersOnlyWithFocus: every return of the boolean function g that gives the constant `answer` lies on a path that
+// entails focusWorkload != "" (and g has such a return, and no computed answers).
+func answersOnlyWithFocus(p *core.Program, g *core.FuncDecl, answer bool) bool {
+	ginfo := g.Pkg.TypesInfo
+	okAll, some := true, false
+	gw := facts.NewWalker(ginfo)
+	gw.OnStmt = func(s ast.Stmt, f facts.Formula) {
+		ret, ok := s.(*ast.ReturnStmt)
+		if !ok || gw.FuncLitDepth > 0 || len(ret.Results) != 1 || !facts.Satisfiable(f) {
+			return
+		}
+		v, isConst := core.ConstString(ginfo, ret.Results[0])
+		if !isConst {
+			okAll = false
+			return
+		}
+		if (v == "true") != answer {
+			return
+		}
+		some = true
+		focus := false
+		for _, a := range facts.Atoms(f) {
+			if sa := facts.StripVersions(a); strings.HasPrefix(sa, "eq:") && strings.Contains(sa, ".focusWorkload==\"\"") && facts.Entails(f, facts.MkNot(facts.Atom(a))) {
+				focus = true
+			}
+		}
+		if !focus {
+			okAll = false
+		}
+	}
+	gw.WalkBody(g.Decl.Body, nil)
+	return okAll && some
 }
